@@ -55,7 +55,7 @@ type vReq8 struct {
 func vPool8(i int) vReq8 {
 	tag := "t" + verifItoa(i)
 	vars := func(mode string) map[string]interface{} { return map[string]interface{}{"t": tag, "mode": mode} }
-	class := verifChoice("class"+verifItoa(i), verifParam("classes", 14))
+	class := verifChoice("class"+verifItoa(i), verifParam("classes", 15))
 	if p := verifParam("pin"+verifItoa(i), -1); p >= 0 {
 		verifAssume(class == p)
 	}
@@ -87,6 +87,9 @@ func vPool8(i int) vReq8 {
 		return vReq8{Query: `query A($n: Int = 7) { a(n: $n) }`}
 	case 13:
 		return vReq8{Query: `query B($n: Int) { x: a(n: $n) }`}
+	case 14:
+		// a field the gateway answers itself next to a field whose execution fails
+		return vReq8{Query: `{ __typename a }`, Variables: vars("err")}
 	}
 	return vReq8{Query: `{ a }`, Variables: vars("partial")}
 }
